@@ -6,7 +6,7 @@ From RU Require Import Base.Prelude Base.Utf8 Model.AsciiSet Gen.Tables Model.Pe
   Proofs.C02_Parts Proofs.C18_BodyRef Proofs.C17_Tables Proofs.C17_Total Proofs.C17_Decode Proofs.C17_Main
   Proofs.C17_Bridge Proofs.C17_Fragment Proofs.C17_Body Proofs.C17_BodyUrl
   Proofs.C17_Header Proofs.C17_HeaderUrl Proofs.C17_Mime Proofs.C17_Partial
-  Proofs.C17_HeaderQ Proofs.C17_Full Proofs.C17_Known.
+  Proofs.C17_HeaderQ Proofs.C17_Full Proofs.C17_Known Proofs.C17_Scheme Proofs.C17_Final.
 
 (* the byte classes and literals of data-url/src/lib.rs, regenerated from the source on every run, are
    the Standards': the C0-control / query / fragment percent-encode sets (as url/src/parser.rs defines
@@ -32,9 +32,8 @@ Proof.
 Qed.
 Print Assumptions C17_tables.
 
-(* ---- the full statement.  NOT proved as a whole: what is proved of it is C17_total, C17_base64,
-   C17_mime_fallback, C17_decode (below); completeness of Known_C17 for the rest is decided by
-   the fixed-seed differential run of the check (a test). ---- *)
+(* ---- the full statement.  Proved: Theorem C17 at the end of this file (the theorems in between are
+   its parts, kept under their own names). ---- *)
 Definition C17_statement : Prop := Proofs.C17_Main.C17_statement.
 Check (eq_refl : C17_statement =
   forall (dbg : bool) (hp ho : list N -> result host) (hd : host -> list N) (s : list N) (u : url),
@@ -349,11 +348,9 @@ Check C17_partial2 : forall dbg hp ho hd s rem u, usv_list s ->
   fetch_view (process_and_decode s) = fetch_of_url u.
 Print Assumptions C17_partial2.
 
-(* what is STILL MISSING for C17_statement, exactly: that the scheme of the URL record the parser returns
-   is the scheme text parse_scheme read (scheme_of_parse, Proofs/C17_Known.v; true by construction of the
-   parser - every later step only appends to, or truncates behind, "scheme:" - proved for opaque paths
-   in parse_opaque_explicit, not proved for the authority / path / file parsers).  Given that, the
-   full statement follows. *)
+(* the one fact about the URL parser model that separates C17_partial2 from C17_statement: the scheme of
+   the URL record the parser returns is the scheme text parse_scheme read.  First as a hypothesis
+   (kept), then proved (C17_scheme). *)
 Theorem C17_modulo_scheme :
   (forall (dbg : bool) (hp ho : list N -> result host) (hd : host -> list N) (s sch rem : list N) (u : url),
      usv_list s -> parse_scheme CUrlParser (input_new_trim_c0 s) = Some (sch, rem) ->
@@ -362,18 +359,40 @@ Theorem C17_modulo_scheme :
 Proof. exact statement_modulo_scheme. Qed.
 Print Assumptions C17_modulo_scheme.
 
-(* the premises of C17_partial2 hold for "data:a/b;p=q?x%20;base64,QUJD#z" (a header with '?', base64) and
-   both sides agree on a non-trivial result *)
+(* parse_url without a base: the scheme slice of the record is what parse_scheme read - every later step
+   of the parser only appends to the serialization or truncates / splices it behind "scheme:"
+   (one lemma per parser function, Proofs/C17_Scheme.v) *)
+Theorem C17_scheme : forall dbg hp ho hd ovr input sch rem u,
+  parse_scheme CUrlParser (input_new_trim_c0 input) = Some (sch, rem) ->
+  parse_url dbg hp ho hd ovr None input = POk u ->
+  nfirstn (scheme_end u) (ser u) = sch.
+Proof. exact parse_url_scheme. Qed.
+Print Assumptions C17_scheme.
+
+(* ---- C17 ---- *)
+Theorem C17 : C17_statement.
+Proof. exact c17_statement_holds. Qed.
+Check C17 :
+  forall (dbg : bool) (hp ho : list N -> result host) (hd : host -> list N) (s : list N) (u : url),
+    usv_list s ->
+    parse_url dbg hp ho hd None None s = POk u -> url_is_data u = true ->
+    ~ Known_C17 s ->
+    fetch_view (process_and_decode s) = fetch_of_url u.
+Print Assumptions C17.
+
+(* the premises of C17 / C17_partial2 hold for "data:a/b;p=q?x%20;base64,QUJD#z" (a header with '?', base64)
+   and both sides agree on a non-trivial result *)
 Example C17_partial2_premises :
   let s := [100;97;116;97;58;97;47;98;59;112;61;113;63;120;37;50;48;59;98;97;115;101;54;52;44;81;85;74;68;35;122] in
   exists rem u, usv_list s
     /\ parse_scheme CUrlParser (input_new_trim_c0 s) = Some (s_data, rem)
     /\ parse_url true toy_hp toy_hp toy_hd None None s = POk u
-    /\ known_c17 s = 0
+    /\ url_is_data u = true /\ known_c17 s = 0
     /\ fetch_of_url u = FOk (mk_mime_type [97] [98] [([112], [113;63;120;37;50;48])]) [65;66;67] (Some [122]).
 Proof.
   cbv zeta. eexists. eexists. split; [apply usv_list_b; vm_compute; reflexivity|].
-  split; [vm_compute; reflexivity|]. split; [vm_compute; reflexivity|]. split; vm_compute; reflexivity.
+  split; [vm_compute; reflexivity|]. split; [vm_compute; reflexivity|]. split; [vm_compute; reflexivity|].
+  split; vm_compute; reflexivity.
 Qed.
 
 (* inside Known_C17 the statement fails: one witness per finding (toy host functions; none of the
